@@ -329,6 +329,64 @@ pub fn run() {}
 """
 
 
+def lifetime_where_case(cid, rng):
+    """Delegated trait whose method relates two lifetimes in its where clause (`where 'a: 'b`, the body relies on it); two
+    competing targets; static or dynamic selection; the predicate alone or next to bounds on the dependency parameter."""
+    dynamic = rng.random() < 0.5
+    is_async = rng.random() < 0.3
+    asy = "async " if is_async else ""
+    at = "#[::async_trait::async_trait]\n" if (is_async and dynamic) else ""
+    deps_form = rng.choice(["impl", "generic", "generic_where"])
+    L = ["#[::entrait::entrait(pub Dep)] fn dep<D>(deps: &D, x: usize) -> usize { x + 1 }"]
+    L.append("#[::entrait::entrait(PickImpl, delegate_by = %s)] /*@inv*/" % ("ref" if dynamic else "DelegatePick"))
+    L.append("%spub trait Pick { %sfn pick<'a, 'b>(&self, long: &'a str, short: &'b str) -> &'b str where 'a: 'b; }" % (at, asy))
+    for t, bias in (("Ta", 0), ("Tb", 100)):
+        if deps_form == "impl":
+            g, d, w = "<'a, 'b>", "&impl Dep", "where 'a: 'b"
+        elif deps_form == "generic":
+            g, d, w = "<'a, 'b, D: Dep>", "&D", "where 'a: 'b"
+        else:
+            g, d, w = "<'a, 'b, D>", "&D", rng.choice(["where D: Dep, 'a: 'b", "where 'a: 'b, D: Dep"])
+        L.append("pub struct %s;" % t)
+        L.append("#[::entrait::entrait%s]\n%simpl PickImpl for %s {" % ("(ref)" if dynamic else "", at, t))
+        L.append("    pub %sfn pick%s(deps: %s, long: &'a str, short: &'b str) -> &'b str %s { if deps.dep(long.len()) > short.len() + %d { long } else { short } }" % (asy, g, d, w, bias))
+        L.append("}")
+    if dynamic:
+        sync = " + ::core::marker::Sync" if is_async else ""
+        L.append("pub struct App(pub ::std::boxed::Box<dyn PickImpl<App> + ::core::marker::Send + ::core::marker::Sync>);")
+        L.append("impl ::core::convert::AsRef<dyn PickImpl<App>%s> for App { fn as_ref(&self) -> &(dyn PickImpl<App>%s + 'static) { &*self.0 } }" % (sync, sync))
+        mk = lambda t: "App(::std::boxed::Box::new(%s))" % t
+        apps = [("App", mk("Ta")), ("App", mk("Tb"))]
+    else:
+        L.append("pub struct AppA; impl DelegatePick<Self> for AppA { type Target = Ta; }")
+        L.append("pub struct AppB; impl DelegatePick<Self> for AppB { type Target = Tb; }")
+        apps = [("AppA", "AppA"), ("AppB", "AppB")]
+    w = (lambda c: "::vrt::block_on(%s)" % c) if is_async else (lambda c: c)
+    D = ["pub fn run() {", '    ::vrt::phase("lt-where");']
+    for k, (_ty, ctor) in enumerate(apps):
+        D.append("    { let app = ::entrait::Impl::new(%s); let long = ::std::string::String::from(\"longer\"); let r = { let short = ::std::string::String::from(\"s\"); %s.len() }; ::vrt::kv(\"r%d\", r); }" % (
+            ctor, w("app.pick(&long, &short)"), k))
+    D.append("}")
+    return Case(cid, "\n".join(L + D) + "\n", meta={"family": "lifetime_where", "dynamic": dynamic, "async": is_async, "nontrivial": True, "want": {"r0": "6", "r1": "1"}})
+
+
+def check_lifetime_where(c, rep):
+    if c.removed is not None:
+        d = (c.removed["diags"] or [{}])[0]
+        rep.violation(c.id, "lifetime-where:compile:%s" % d.get("code"), "an impl-block fn with a lifetime predicate in its where clause (%s selection) does not compile: %s" % (
+            "dynamic" if c.meta["dynamic"] else "static", d.get("message", "")[:300]))
+        return
+    rec = c.runrec.get("bin")
+    if not rec or rec.get("panic") or rec.get("crash"):
+        raise core.Inconclusive("no run record for %s: %s" % (c.id, rec))
+    kv = dict({p_["label"]: p_ for p_ in rec["phases"]}.get("lt-where", {}).get("kv", {}))
+    if kv != c.meta["want"]:
+        rep.violation(c.id, "lifetime-where:behaviour", "results %s, expected %s (the selected target decides)" % (kv, c.meta["want"]))
+        return
+    rep.bump("lifetime_where_cases_ok")
+    rep.count(c.sig(), True)
+
+
 def run(tier, seed):
     rep = core.Report(PROP, tier, seed)
     rep.rule = ("random delegated traits (1-4 methods incl. same-signature pairs, lifetimes, async with/without async_trait) with 2-3 "
@@ -345,18 +403,21 @@ def run(tier, seed):
         ns = (not dyn) and rng.random() < 0.4
         return build_case("c07_%04d" % i, rng, dynamic=dyn, force_async=ns, no_send=ns)
     cases = [one(i) for i in range(n)]
+    ltw = [lifetime_where_case("c07w_%03d" % i, rng) for i in range(24 if tier == "quick" else 240)]
     pin = Case("c07known_dyn_borrow", KNOWN_PIN_SRC, meta={"pin": "dyn_borrow_from_deps"})
     pin2 = Case("c07known_typed_receiver", KNOWN_PIN2_SRC, meta={"pin": "typed_receiver_with_target"})
     st = selftest.case("selftest_c07")
     ws = core.Workspace(PROP, "x", deps=("async-trait",))
     pin3 = Case("c07known_elided_return_lifetime", KNOWN_PIN3_SRC, meta={"pin": "elided_return_lifetime_static"})
-    ws.extend(cases + [st, pin, pin2, pin3])
+    ws.extend(cases + ltw + [st, pin, pin2, pin3])
     ws.write()
     b = ws.build()
     ws.run(b["exes"])
     selftest.verify(st)
     for c in cases:
         check_case(c, rep)
+    for c in ltw:
+        check_lifetime_where(c, rep)
     for pn in (pin, pin2, pin3):
         if pn.removed is not None:
             d = (pn.removed["diags"] or [{}])[0]
@@ -364,4 +425,4 @@ def run(tier, seed):
                           pinned=pn.meta["pin"])
     rep.bump("fixpoint_rounds", ws.rounds)
     core.floors(rep, calls_compared=n, trace_events=2 * n)
-    return rep.finish({c.id: c for c in cases})
+    return rep.finish({c.id: c for c in cases + ltw})
